@@ -295,6 +295,15 @@ def run(ctx):
     ctx.check_proofs(["prop/P_C14.v"])
     # translation tie: Gallina regenerated from the current umap/distances.py; link theorems src_<fn>_eq (= M_grads model) re-checked
     lres = link.check(ctx, "distances_grads", {fn: "src_%s_eq" % fn for fn in LINKED}, NOT_TRANSLATED)
+    # capstone corollaries (coq/link/K_grads.v): "returned gradient = derivative of the returned distance" about the translated source itself
+    for thm in ("C14_src_euclidean_grad", "C14_src_manhattan_grad"):
+        ob = "link:distances_grads:" + thm
+        ctx.obligations.append(ob)
+        badax = [a for a in lres.axioms.get(thm, []) if a not in link.coqrun.ALLOWED_AXIOMS and not ctx._primitive(a)]
+        if lres.theorems.get(thm) is True and not badax:
+            ctx.discharged.append(ob)
+        else:
+            ctx.broken.append("link[distances_grads]: corollary %s %s" % (thm, ("uses axioms %s" % badax) if badax else (lres.theorems.get(thm) or "is missing")))
     src_ready = lres.ok and not any("E_grads" in e for e in lres.errors)
     link_broken = any(b.startswith("link[") for b in ctx.broken)
     rng = ctx.rng
